@@ -15,7 +15,8 @@
     MJ.B / MJ.D k …   BMV.Json.jsoner(BM) applied to L                       (compared with J)
     MX.B / MX.D k …   BMV.Json.dejsoner / loadBM (= Dejsoner + Init) applied to J, registry threaded (compared with X)
                       from case to case exactly as the loading process does
-    P resolvable=<0|1> sovalid=<0|1> loadeq=<0|1|-> nilops=<n> nilsos=<n> counts=<0|1>
+    P resolvable=<0|1> sovalid=<0|1> loadeq=<0|1|-> nilops=<n> nilsos=<n> counts=<0|1> mnilops=<n> mnilsos=<n>
+                      (mnil* = nil entries the MODEL predicts: > 0 means the file is not loadable in this configuration)
                       the property evaluated by the model's definitions on the IMPLEMENTATION's
                       dumps: loadeq = (X == clearTransient(L) lifted)
 -/
@@ -282,8 +283,14 @@ def finish (s : St) (c : Case) : St × List String :=
          x.iout == j.iout && (j.slinks.isNone || x.slinks == j.slinks) && x.processors == j.processors
      | none, none => true
      | _, _ => false)
-  let _ := xModel
-  let p := s!"P resolvable={b2s resolvable} sovalid={b2s sovalid} loadeq={loadeq} nilops={nilops} nilsos={nilsos} counts={b2s counts}"
+  -- what the model itself predicts for this file in this loader configuration: nil entries = the file is not loadable
+  let nilIn (ds : List LoadedMachine) : Nat := (ds.map fun d => (d.ops.filter Option.isNone).length).sum
+  let (mnilops, mnilsos) : Nat × Nat :=
+    match xModel with
+    | some (.inl b) => (nilIn b.domains, (b.sos.filter Option.isNone).length)
+    | some (.inr ds) => (nilIn ds, 0)
+    | none => (0, 0)
+  let p := s!"P resolvable={b2s resolvable} sovalid={b2s sovalid} loadeq={loadeq} nilops={nilops} nilsos={nilsos} counts={b2s counts} mnilops={mnilops} mnilsos={mnilsos}"
   ({ s with reg := reg', cur := none }, out0 ++ mj ++ mx ++ [p])
 
 def flush (s : St) : St × List String :=
